@@ -14,7 +14,18 @@ VALUES = {"title": " Title é中 1 ", "creator": "Créator  Two", "subject": "Su
 # format fields) -- stored properties are plain strings, none of it may be decoded
 LOOKALIKE = {"title": "budget_x2024_final %41 \\u0042", "creator": "svc_x0041_runner &#67;", "subject": "a_x000D_b {0} %(x)s",
              "keywords": "k_x0020_1;\\n;=?utf-8?q?x?=", "description": "d_x0044_ &amp;amp; \\x41 $HOME"}
-VALUE_SETS = [VALUES, LOOKALIKE]
+# a third set: characters at the two ends that normalisers like to strip (timestamp designators, punctuation, zeros, case)
+EDGES = {"title": "Zebra to Gen Z", "creator": "z. JAY-Z", "subject": "007 A-Z 00", "keywords": ",k1;k2,;", "description": "--Describe QUIZ.--"}
+VALUE_SETS = [VALUES, LOOKALIKE, EDGES]
+
+
+def directed_values(strings):
+    """Value sets built from the string constants of the transformation the analysis saw on the way to the field (e.g. the
+    argument of rstrip / replace): each occurs at the start, the end and inside of every property value."""
+    out = []
+    for t in [x for x in (strings or []) if isinstance(x, str) and 0 < len(x) <= 8][:4]:
+        out.append({p: f"{t}{t} {p} {t}mid{t} end {t}{t}" for p in VALUES})
+    return out
 
 CORE = ('<?xml version="1.0" encoding="UTF-8" standalone="yes"?><cp:coreProperties '
         'xmlns:cp="http://schemas.openxmlformats.org/package/2006/metadata/core-properties" xmlns:dc="http://purl.org/dc/elements/1.1/" '
@@ -100,18 +111,18 @@ def first_fixture(d, ext):
 CUR = VALUES
 
 
-def run_case(reader):
+def run_case(reader, extra_sets=()):
     """All value sets; returns (mismatches, document name)."""
     global CUR
     out, name = [], reader
-    for vs in VALUE_SETS:
+    for vs in list(extra_sets) + VALUE_SETS:
         CUR = vs
         try:
             bad, name = _run_case(reader)
         finally:
             CUR = VALUES
         out.extend(bad)
-        if reader == "rtf":
+        if reader == "rtf" and vs is VALUES:
             break
     return out, name
 
@@ -137,13 +148,13 @@ def _run_case(reader):
     return bad, name
 
 
-def find(ob):
+def find(ob, strings=None):
     reader = ob.split("#")[1].split("-")[0] if "#" in ob else None
     prop = ob.split("#")[1].split("-", 1)[1] if "#" in ob else None
     readers = [reader] if reader in list(CASES) + ["rtf"] else list(CASES) + ["rtf"]
     for r in readers:
         try:
-            bad, name = run_case(r)
+            bad, name = run_case(r, directed_values(strings))
         except Exception as e:  # noqa
             continue
         bad = [b for b in bad if prop in (None, b[0])] or ([] if prop else bad)
